@@ -195,7 +195,17 @@ impl Check for ExportRules {
                     let spec = gen_aspec(&mut rng, None, 0, confed);
                     ops.push(jarr!["local", rng.below(n_pfx), spec.to_json()]);
                 }
-                3 => ops.push(jarr!["unlocal", rng.below(n_pfx)]),
+                3 => {
+                    if rng.coin() {
+                        ops.push(jarr!["unlocal", rng.below(n_pfx)]);
+                    } else if rng.coin() {
+                        // a route redistributed from the kernel: originated here just like a local one
+                        let spec = gen_aspec(&mut rng, None, 0, confed);
+                        ops.push(jarr!["kernel", rng.below(n_pfx), spec.to_json()]);
+                    } else {
+                        ops.push(jarr!["unkernel", rng.below(n_pfx)]);
+                    }
+                }
                 4 => ops.push(jarr!["down", s]),
                 _ => ops.push(jarr!["wait", *rng.pick(&[100u64, 6000, 40000])]),
             }
@@ -334,6 +344,17 @@ async fn run(case: Json, tol: Tolerate) -> Outcome {
                 local.insert(op.at(1).as_u64(), spec);
                 out.hit("op.local-route");
             }
+            "kernel" => {
+                let spec = ASpec::from_json(op.at(2));
+                let mut attrs = spec.attrs();
+                attrs.retain(|a| !matches!(a.code(), packet::Attribute::ORIGINATOR_ID | packet::Attribute::CLUSTER_LIST));
+                let nh = Ipv4Addr::new(192, 0, 2, spec.nh.max(1));
+                t.w.tables.insert_route(table::Source::kernel(), Family::IPV4, packet::PathNlri { path_id: 0, nlri: v4_prefix(op.at(1).as_u64()) }, Some(bgp::Nexthop::V4(nh)), Arc::new(attrs), None, 0);
+                out.hit("op.kernel-route");
+            }
+            "unkernel" => {
+                t.w.tables.remove_route(table::Source::kernel(), Family::IPV4, packet::PathNlri { path_id: 0, nlri: v4_prefix(op.at(1).as_u64()) }, None, 0);
+            }
             "unlocal" => {
                 t.w.tables.remove_route(table::Source::local(), Family::IPV4, packet::PathNlri { path_id: 0, nlri: v4_prefix(op.at(1).as_u64()) }, None, 0);
                 local.remove(&op.at(1).as_u64());
@@ -355,7 +376,7 @@ async fn run(case: Json, tol: Tolerate) -> Outcome {
         // ---- inbound half: nothing looped is installed ---------------------------------------------
         for d in t.w.tables.collect_paths(table::TableQuery::Global, Family::IPV4, vec![], true) {
             for p in &d.paths {
-                if p.source.is_local() {
+                if p.source.is_local() || p.source.is_kernel() {
                     continue;
                 }
                 let segs = attr_bin(&p.attr, packet::Attribute::AS_PATH).map(|b| parse_segs(&b)).unwrap_or_default();
@@ -392,14 +413,15 @@ async fn run(case: Json, tol: Tolerate) -> Outcome {
                     continue;
                 };
                 let src = &best.source;
-                if src.remote_addr == raddr && !src.is_local() {
+                let originated = src.is_local() || src.is_kernel();
+                if src.remote_addr == raddr && !originated {
                     continue; // never back to the peer it was learned from
                 }
-                let src_ibgp = !src.is_local() && matches!(src.role, table::PeerRole::Ibgp | table::PeerRole::IbgpRrClient);
+                let src_ibgp = !originated && matches!(src.role, table::PeerRole::Ibgp | table::PeerRole::IbgpRrClient);
                 if src_ibgp && src.role == table::PeerRole::Ibgp && recv == Role::Ibgp {
                     continue; // non-client to non-client
                 }
-                let src_rs = src.role == table::PeerRole::RsClient && !src.is_local();
+                let src_rs = src.role == table::PeerRole::RsClient && !originated;
                 if src_rs != (recv == Role::RsClient) {
                     continue; // route-server boundary
                 }
@@ -425,7 +447,8 @@ async fn run(case: Json, tol: Tolerate) -> Outcome {
                 }
                 let src = &best.source;
                 let src_attrs: &[packet::Attribute] = &best.attr;
-                let src_ibgp = !src.is_local() && matches!(src.role, table::PeerRole::Ibgp | table::PeerRole::IbgpRrClient);
+                let originated = src.is_local() || src.is_kernel();
+                let src_ibgp = !originated && matches!(src.role, table::PeerRole::Ibgp | table::PeerRole::IbgpRrClient);
                 let internal_recv = matches!(recv, Role::Ibgp | Role::RrClient);
                 // AS_PATH
                 let want_path = ref_as_path(&attr_bin(src_attrs, packet::Attribute::AS_PATH).map(|b| parse_segs(&b)).unwrap_or_default(), recv, confed);
@@ -440,11 +463,11 @@ async fn run(case: Json, tol: Tolerate) -> Outcome {
                             fail!(format!("rewrite/{}-sent-to-ebgp", name), "op {}: {} to receiver {}", opi, mk.1, r);
                         }
                     }
-                    if !src.is_local() && attrs.iter().any(|a| a.code() == packet::Attribute::MULTI_EXIT_DESC) {
+                    if !originated && attrs.iter().any(|a| a.code() == packet::Attribute::MULTI_EXIT_DESC) {
                         fail!("rewrite/received-med-sent-to-ebgp", "op {}: {} to receiver {}", opi, mk.1, r);
                     }
                     if *nh != Some(bgp::Nexthop::V4(Ipv4Addr::new(10, 0, 0, 254))) {
-                        let local_explicit = src.is_local() && best.nexthop.is_some_and(|n| !n.addr().is_unspecified());
+                        let local_explicit = originated && best.nexthop.is_some_and(|n| !n.addr().is_unspecified());
                         if !local_explicit {
                             fail!("rewrite/next-hop-not-self-to-ebgp", "op {}: {} to receiver {}: next hop {:?}", opi, mk.1, r, nh);
                         }
@@ -455,7 +478,7 @@ async fn run(case: Json, tol: Tolerate) -> Outcome {
                     if attr_val(attrs, packet::Attribute::LOCAL_PREF) != Some(want_lp) {
                         fail!("rewrite/local-pref-missing-or-changed-to-ibgp", "op {}: {} to receiver {}: expected {} got {:?}", opi, mk.1, r, want_lp, attr_val(attrs, packet::Attribute::LOCAL_PREF));
                     }
-                    if !src.is_local() && *nh != best.nexthop {
+                    if !originated && *nh != best.nexthop {
                         fail!("rewrite/next-hop-touched-to-ibgp", "op {}: {} to receiver {}: stored {:?} sent {:?}", opi, mk.1, r, best.nexthop, nh);
                     }
                     if src_ibgp {
